@@ -21,7 +21,7 @@ UNDECIDED_CLASSES = ("unwind", "unsupported_construct", "missing_definition", "r
 
 class Harness:
     def __init__(self, name, obligation, label, desc, crate="scylla", carries=True, canary=False,
-                 tier="quick", bound=None, solver=None, timeout=None, functions=(), twin=False):
+                 tier="quick", bound=None, solver=None, timeout=None, functions=(), twin=False, search_only=False):
         self.name = name              # bare function name of the harness (unique, prefixed cNN_)
         self.obligation = obligation  # obligation id, e.g. C11.shard_of.contract
         self.label = label            # PROVED-C | BOUNDED
@@ -34,6 +34,7 @@ class Harness:
         self.solver = solver
         self.timeout = timeout
         self.functions = functions    # functions of /repo under contract in this harness
+        self.search_only = search_only  # counterexample search for a contract Verus proves: run only when Verus fails; a time-out is not a verdict
         self.twin = twin              # bounded twin of a Verus contract: runs when Verus cannot decide / reports a violation, and in thorough
 
 
